@@ -106,6 +106,52 @@ func (notCmp) IsZero() bool { return true }
 
 type otherType struct{ X int }
 
+// ptrErr implements error, fmt.Stringer and IsZero() bool on the pointer receiver; all three are nil-safe, so a nil
+// *ptrErr inside an interface is a perfectly usable, NON-nil interface value (err != nil is true for it).
+type ptrErr struct{ msg string }
+
+func (e *ptrErr) Error() string {
+	if e == nil {
+		return "<nil ptrErr>"
+	}
+	return e.msg
+}
+func (e *ptrErr) String() string { return e.Error() }
+func (e *ptrErr) IsZero() bool   { return e == nil }
+
+// nillable non-pointer kinds implementing error / fmt.Stringer: a nil map, slice, func or channel inside an interface
+// is a non-nil interface as well. mapErr, sliceErr and funcErr are not comparable (== on two interfaces holding them panics).
+type (
+	mapErr   map[string]int64
+	sliceErr []int64
+	funcErr  func()
+	chanErr  chan int
+)
+
+func (mapErr) Error() string    { return "mapErr" }
+func (mapErr) String() string   { return "mapErr" }
+func (sliceErr) Error() string  { return "sliceErr" }
+func (sliceErr) String() string { return "sliceErr" }
+func (funcErr) Error() string   { return "funcErr" }
+func (chanErr) Error() string   { return "chanErr" }
+func (chanErr) String() string  { return "chanErr" }
+
+// 128-byte and just-above element types (sizes at which compilers and runtimes switch strategies)
+type (
+	arr128 [16]int64
+	arr136 [17]int64
+	rec128 struct {
+		S string
+		A [14]int64
+	}
+)
+
+// fpair holds floats: a NaN inside makes the value unequal to everything, itself and the zero value included.
+type fpair struct {
+	F float64
+	N int64
+}
+
 type bigArr [256]int64
 
 type namedPtr[T any] *T
@@ -180,6 +226,34 @@ func sameFunc(a, b func() int) bool {
 		return a == nil && b == nil
 	}
 	return a() == b()
+}
+
+// sameIface compares two interface values without ever panicking: dynamic types first, then == for comparable
+// dynamic types and identity (nil-ness, length, data pointer) for slices, maps and funcs.
+func sameIface(a, b any) bool {
+	if a == nil || b == nil {
+		return a == nil && b == nil
+	}
+	ta := reflect.TypeOf(a)
+	if ta != reflect.TypeOf(b) {
+		return false
+	}
+	va, vb := reflect.ValueOf(a), reflect.ValueOf(b)
+	switch ta.Kind() {
+	case reflect.Slice:
+		return va.IsNil() == vb.IsNil() && va.Len() == vb.Len() && va.Pointer() == vb.Pointer()
+	case reflect.Map, reflect.Func:
+		return va.IsNil() == vb.IsNil() && va.Pointer() == vb.Pointer()
+	case reflect.Struct:
+		if !ta.Comparable() {
+			x, y := a.(notCmp), b.(notCmp) // the only non-comparable struct in the tables
+			return sameSlice(x.S, y.S) && x.N == y.N
+		}
+	}
+	if x, ok := a.(float64); ok {
+		return sameFloat(x, b.(float64))
+	}
+	return a == b
 }
 
 func buildSpecials() []*specialType {
@@ -323,7 +397,7 @@ func buildSpecials() []*specialType {
 	addCmp(&l, &battery[uintptr]{name: "uintptr", printable: true, ents: func() []ent[uintptr] {
 		return []ent[uintptr]{e(uintptr(0), "0", Z, true), e(uintptr(1), "1", N, false), e(^uintptr(0), "max", N, false)}
 	}})
-	addCmp(&l, &battery[float64]{name: "float64", printable: true, ents: func() []ent[float64] {
+	addCmp(&l, &battery[float64]{name: "float64", printable: true, same: sameFloat, ents: func() []ent[float64] {
 		return []ent[float64]{
 			e(float64(0), "+0", Z, true),
 			e(math.Copysign(0, -1), "-0 (== 0)", Z, true),
@@ -331,6 +405,16 @@ func buildSpecials() []*specialType {
 			e(-math.SmallestNonzeroFloat64, "-5e-324", N, false),
 			e(1.5, "1.5", N, false),
 			e(math.Inf(-1), "-Inf", N, false),
+			e(math.NaN(), "NaN (!= 0, hence a non-zero value)", N, false),
+		}
+	}})
+	addCmp(&l, &battery[fpair]{name: "fpair", same: func(a, b fpair) bool { return sameFloat(a.F, b.F) && a.N == b.N }, ents: func() []ent[fpair] {
+		return []ent[fpair]{
+			e(fpair{}, "fpair{0,0}", Z, true),
+			e(fpair{math.Copysign(0, -1), 0}, "fpair{-0,0} (== the zero value)", Z, true),
+			e(fpair{math.NaN(), 0}, "fpair{NaN,0} (!= the zero value and != itself)", N, false),
+			e(fpair{math.NaN(), 4}, "fpair{NaN,4}", N, false),
+			e(fpair{0, 4}, "fpair{0,4}", N, false),
 		}
 	}})
 	addCmp(&l, &battery[float32]{name: "float32", printable: true, ents: func() []ent[float32] {
@@ -403,6 +487,21 @@ func buildSpecials() []*specialType {
 		l[len(l)-1].heavy = true
 	}
 
+	addCmp(&l, &battery[arr128]{name: "arr128", printable: true, ents: func() []ent[arr128] {
+		return []ent[arr128]{e(arr128{}, "[16]int64{} (128 bytes)", Z, true), e(arr128{15: 1}, "[16]int64{15: 1}", N, false), e(arr128{0: -1}, "[16]int64{0: -1}", N, false), e(arr128{8: 1 << 32}, "[16]int64{8: 1<<32}", N, false)}
+	}})
+	addCmp(&l, &battery[arr136]{name: "arr136", printable: true, ents: func() []ent[arr136] {
+		return []ent[arr136]{e(arr136{}, "[17]int64{} (136 bytes)", Z, true), e(arr136{16: 1}, "[17]int64{16: 1}", N, false), e(arr136{0: -1}, "[17]int64{0: -1}", N, false), e(arr136{15: 7}, "[17]int64{15: 7}", N, false)}
+	}})
+	addCmp(&l, &battery[rec128]{name: "rec128", ents: func() []ent[rec128] {
+		return []ent[rec128]{
+			e(rec128{}, "rec128{} (128 bytes: string + [14]int64)", Z, true),
+			e(rec128{S: "a"}, `rec128{S:"a"}`, N, false),
+			e(rec128{A: [14]int64{13: 1}}, "rec128{A:{13: 1}}", N, false),
+			e(rec128{S: strings.Repeat("a", 200), A: [14]int64{0: 1}}, `rec128{S: 200 x "a", A:{0: 1}}`, N, false),
+		}
+	}})
+
 	// ---------------- interface-typed T
 	addCmp(&l, &battery[zeroer]{name: "zeroer", iface: true, ents: func() []ent[zeroer] {
 		return []ent[zeroer]{
@@ -417,9 +516,11 @@ func buildSpecials() []*specialType {
 			e(zeroer(evenInt(0)), "zeroer(evenInt(0)) (non-nil, IsZero() true)", N, true),
 			e(zeroer(evenInt(3)), "zeroer(evenInt(3))", N, false),
 			e(zeroer(unit{}), "zeroer(unit{}) (non-nil, IsZero() false)", N, false),
+			e(zeroer((*ptrErr)(nil)), "zeroer((*ptrErr)(nil)) (non-nil interface holding a nil pointer, nil-safe IsZero() true)", N, true),
+			e(zeroer(&ptrErr{"x"}), `zeroer(&ptrErr{"x"}) (IsZero() false)`, N, false),
 		}
 	}})
-	addCmp(&l, &battery[any]{name: "any", iface: true, ents: func() []ent[any] {
+	addCmp(&l, &battery[any]{name: "any", iface: true, same: sameIface, ents: func() []ent[any] {
 		return []ent[any]{
 			e(any(nil), "any(nil)", Z, true),
 			e(any(int64(0)), "any(int64(0)) (non-nil interface holding a zero)", N, false),
@@ -432,6 +533,29 @@ func buildSpecials() []*specialType {
 			e(any(odd{0}), "any(odd{0}) (non-nil, IsZero() false)", N, false),
 			e(any(int64(7)), "any(int64(7))", N, false),
 			e(any(pair{}), "any(pair{}) (non-nil interface holding a zero)", N, false),
+			e(any((*int64)(nil)), "any((*int64)(nil)) (non-nil interface holding a nil pointer)", N, false),
+			e(any((*struct{})(nil)), "any((*struct{})(nil)) (non-nil interface holding a nil pointer to a zero-size type)", N, false),
+			e(any(namedPtr[int64](nil)), "any(namedPtr[int64](nil)) (non-nil interface holding a nil named pointer)", N, false),
+			e(any((**int64)(nil)), "any((**int64)(nil)) (non-nil interface holding a nil pointer to a pointer)", N, false),
+			e(any(new(*int64)), "any(pointer to a nil *int64)", N, false),
+			e(any((*ptrErr)(nil)), "any((*ptrErr)(nil)) (non-nil interface holding a nil pointer, nil-safe IsZero() true)", N, true),
+			e(any((chan int)(nil)), "any((chan int)(nil)) (non-nil interface holding a nil channel)", N, false),
+			e(any(unsafe.Pointer(nil)), "any(unsafe.Pointer(nil)) (non-nil interface holding a nil unsafe.Pointer)", N, false),
+			e(any(error((*ptrErr)(nil))), "any(error((*ptrErr)(nil))) (an error holding a nil pointer, converted to any)", N, true),
+			e(any(math.NaN()), "any(NaN) (non-nil; == itself is false)", N, false),
+		}
+	}})
+	addCmp(&l, &battery[any]{name: "any(uncomparable)", iface: true, same: sameIface, ents: func() []ent[any] {
+		return []ent[any]{
+			e(any(nil), "any(nil)", Z, true),
+			e(any([]int64(nil)), "any([]int64(nil)) (non-nil interface holding a nil slice)", N, false),
+			e(any([]int64{}), "any([]int64{})", N, false),
+			e(any(map[string]int64(nil)), "any(map[string]int64(nil)) (non-nil interface holding a nil map)", N, false),
+			e(any((func() int)(nil)), "any((func() int)(nil)) (non-nil interface holding a nil func)", N, false),
+			e(any(sliceErr(nil)), "any(sliceErr(nil)) (non-nil interface holding a nil slice with methods)", N, false),
+			e(any(notCmp{}), "any(notCmp{}) (non-comparable struct, IsZero() true)", N, true),
+			e(any(int64(7)), "any(int64(7))", N, false),
+			e(any((*int64)(nil)), "any((*int64)(nil)) (non-nil interface holding a nil pointer)", N, false),
 		}
 	}})
 	addCmp(&l, &battery[fmt.Stringer]{name: "fmt.Stringer", iface: true, ents: func() []ent[fmt.Stringer] {
@@ -444,6 +568,8 @@ func buildSpecials() []*specialType {
 			e(fmt.Stringer(label("none")), `fmt.Stringer(label("none")) (non-nil, IsZero() true)`, N, true),
 			e(fmt.Stringer(time.Duration(0)), "fmt.Stringer(time.Duration(0))", N, false),
 			e(fmt.Stringer(evenInt(0)), "fmt.Stringer(evenInt(0)) (non-nil, IsZero() true)", N, true),
+			e(fmt.Stringer((*ptrErr)(nil)), "fmt.Stringer((*ptrErr)(nil)) (non-nil interface holding a nil pointer, nil-safe IsZero() true)", N, true),
+			e(fmt.Stringer(chanErr(nil)), "fmt.Stringer(chanErr(nil)) (non-nil interface holding a nil channel)", N, false),
 		}
 	}})
 	addCmp(&l, &battery[error]{name: "error", iface: true, ents: func() []ent[error] {
@@ -452,6 +578,19 @@ func buildSpecials() []*specialType {
 			e(error(liarErr{}), `error(liarErr{}) (zero-size, message "")`, N, false),
 			e(errors.New(""), `errors.New("")`, N, false),
 			e(errors.New("x"), `errors.New("x")`, N, false),
+			e(error((*ptrErr)(nil)), "error((*ptrErr)(nil)) (non-nil error holding a nil pointer, nil-safe IsZero() true)", N, true),
+			e(error(&ptrErr{"x"}), `error(&ptrErr{"x"})`, N, false),
+			e(error(chanErr(nil)), "error(chanErr(nil)) (non-nil error holding a nil channel)", N, false),
+		}
+	}})
+	addCmp(&l, &battery[error]{name: "error(uncomparable)", iface: true, same: func(a, b error) bool { return sameIface(a, b) }, ents: func() []ent[error] {
+		return []ent[error]{
+			e(error(nil), "error(nil)", Z, true),
+			e(error(sliceErr(nil)), "error(sliceErr(nil)) (non-nil error holding a nil slice)", N, false),
+			e(error(mapErr(nil)), "error(mapErr(nil)) (non-nil error holding a nil map)", N, false),
+			e(error(funcErr(nil)), "error(funcErr(nil)) (non-nil error holding a nil func)", N, false),
+			e(error(sliceErr{1}), "error(sliceErr{1})", N, false),
+			e(error((*ptrErr)(nil)), "error((*ptrErr)(nil)) (non-nil error holding a nil pointer, nil-safe IsZero() true)", N, true),
 		}
 	}})
 
